@@ -361,6 +361,68 @@ fn multi_ok(t: &Topo, under_inner: bool, out: &mut BTreeMap<u8, bool>) {
     }
 }
 
+/// The rules a sink must obey towards one source, over the events of that edge: nothing upstream before
+/// it was greeted, at most one termination, nothing after the source ended by itself or was terminated.
+fn sink_side_rules(evs: &[EdgeEv], name: &str, op: &str, first_is_subscription: bool, out: &mut Vec<Finding>) {
+    let mut greeted = false;
+    let mut ended: Option<M> = None;
+    let mut terminated: Option<M> = None;
+    for (k, e) in evs.iter().enumerate() {
+        match e.dir {
+            Dir::Down => match &e.msg {
+                M::Handshake => greeted = true,
+                m if m.is_terminal() => {
+                    if ended.is_none() {
+                        ended = Some(m.clone())
+                    }
+                }
+                _ => {}
+            },
+            Dir::Up => {
+                if k == 0 && first_is_subscription {
+                    continue; // the subscription itself
+                }
+                let m = &e.msg;
+                if matches!(m, M::Handshake | M::Data(_)) {
+                    out.push(finding(
+                        "C04",
+                        format!("C04:{}-sent-upstream", m.kind()),
+                        format!("{name} received {} on its talkback", m.short()),
+                        e.start,
+                    ));
+                    continue;
+                }
+                if !greeted {
+                    out.push(finding(
+                        "C04",
+                        format!("C04:{}-before-greeted", m.kind()),
+                        format!("{name} received {} before it greeted", m.short()),
+                        e.start,
+                    ));
+                }
+                if let Some(t) = &terminated {
+                    out.push(finding(
+                        "C04",
+                        format!("C04:{}-after-terminated({})", m.kind(), op),
+                        format!("{name} received {} after it had been terminated with {}", m.short(), t.short()),
+                        e.start,
+                    ));
+                } else if let Some(t) = &ended {
+                    out.push(finding(
+                        "C04",
+                        format!("C04:{}-after-own-end({})", m.kind(), op),
+                        format!("{name} received {} after it had ended by itself with {}", m.short(), t.short()),
+                        e.start,
+                    ));
+                }
+                if m.is_terminal() && terminated.is_none() {
+                    terminated = Some(m.clone());
+                }
+            }
+        }
+    }
+}
+
 /// C04: operators (and for_each) are conformant sinks; no orphaned or doubly-terminated upstream
 pub fn c04(cx: &Ctx) -> Vec<Finding> {
     let mut out = vec![];
@@ -373,62 +435,12 @@ pub fn c04(cx: &Ctx) -> Vec<Finding> {
             SinkKind::ForEach if matches!(cx.sc.topo, Topo::Puppet(_)) => "for_each",
             _ => cx.sc.topo.path_to(inst.pup).and_then(|p| p.last().copied()).unwrap_or("none"),
         };
-        let mut greeted = false;
-        let mut ended: Option<M> = None;
-        let mut terminated: Option<M> = None;
-        for (k, e) in cx.pup_edge(inst).iter().enumerate() {
-            match e.dir {
-                Dir::Down => match &e.msg {
-                    M::Handshake => greeted = true,
-                    m if m.is_terminal() => {
-                        if ended.is_none() {
-                            ended = Some(m.clone())
-                        }
-                    }
-                    _ => {}
-                },
-                Dir::Up => {
-                    if k == 0 {
-                        continue; // the subscription itself
-                    }
-                    let m = &e.msg;
-                    if matches!(m, M::Handshake | M::Data(_)) {
-                        out.push(finding(
-                            "C04",
-                            format!("C04:{}-sent-upstream", m.kind()),
-                            format!("{name} received {} on its talkback", m.short()),
-                            e.start,
-                        ));
-                        continue;
-                    }
-                    if !greeted {
-                        out.push(finding(
-                            "C04",
-                            format!("C04:{}-before-greeted", m.kind()),
-                            format!("{name} received {} before it greeted", m.short()),
-                            e.start,
-                        ));
-                    }
-                    if let Some(t) = &terminated {
-                        out.push(finding(
-                            "C04",
-                            format!("C04:{}-after-terminated({})", m.kind(), op),
-                            format!("{name} received {} after it had been terminated with {}", m.short(), t.short()),
-                            e.start,
-                        ));
-                    } else if let Some(t) = &ended {
-                        out.push(finding(
-                            "C04",
-                            format!("C04:{}-after-own-end({})", m.kind(), op),
-                            format!("{name} received {} after it had ended by itself with {}", m.short(), t.short()),
-                            e.start,
-                        ));
-                    }
-                    if m.is_terminal() && terminated.is_none() {
-                        terminated = Some(m.clone());
-                    }
-                }
-            }
+        sink_side_rules(cx.pup_edge(inst), &name, op, true, &mut out);
+    }
+    // the crate's own sink (for_each) is judged at the tap in front of it, whatever it sits on
+    if cx.sc.sink_kind == SinkKind::ForEach {
+        for s in &cx.subs {
+            sink_side_rules(cx.probe_edge(s), "the source under for_each", "for_each", false, &mut out);
         }
     }
     if cx.has_share {
